@@ -10,6 +10,7 @@
 
 #include <boost/mqtt5/detail/channel_traits.hpp>
 #include <boost/mqtt5/detail/internal_types.hpp>
+#include <boost/mqtt5/detail/verif.hpp>
 #include <boost/mqtt5/detail/log_invoke.hpp>
 
 #include <boost/mqtt5/impl/assemble_op.hpp>
@@ -269,6 +270,8 @@ private:
     asio::steady_timer _ping_timer;
     asio::steady_timer _sentry_timer;
 
+    BOOST_MQTT5_VERIF_FRIEND
+
     client_service(const client_service& other) :
         _executor(other._executor),
         _log(other._log),
@@ -427,6 +430,7 @@ public:
     }
 
     void free_pid(uint16_t pid, bool was_throttled = false) {
+        BOOST_MQTT5_VERIF_EVENT("free_pid", long(pid), long(was_throttled));
         _pid_allocator.free(pid);
         if (was_throttled)
             _async_sender.throttled_op_done();
@@ -446,6 +450,10 @@ public:
 
     void update_session_state() {
         auto& session_state = _stream_context.session_state();
+        BOOST_MQTT5_VERIF_EVENT(
+            "update_session", long(session_state.session_present()),
+            long(session_state.subscriptions_present())
+        );
 
         if (!session_state.session_present()) {
             _replies.clear_pending_pubrels();
